@@ -12,7 +12,8 @@ EXPLANATION = (
     "(PEER-IN), a bounded channel send, or a per-connection context lock; LK2: no per-connection context guard is live across a PEER-IN "
     "await; LK3: in every accept loop, no PEER-IN or bounded-send await other than the accept itself and enqueue happens inline; "
     "LK4: the lock-order graph (B awaited while A held) is acyclic; LK5: the management API handlers only await locks, the log channel and "
-    "local work. Every await must classify (an unclassified future fails closed). Decides the absence of these blocking shapes, not latencies.")
+    "local work. Every await must classify (an unclassified future fails closed). Decides the absence of these blocking shapes, not latencies."
+    ' NB1: every tokio from_std registration is dominated by set_nonblocking(true) on the same socket.')
 RULE_TEXT = "instances = (guard, await) pairs, accept loops, lock-order edges, handler awaits"
 TRUSTED = ["tokio locks are fair enough that short critical sections do not starve", "small handshake replies complete into kernel buffers (PEER-OUT is recorded, not armed)"]
 NOT_DECIDED = ["actual latencies", "fairness of tokio's locks", "CPU-bound stalls (e.g. a pathological regex in a filter)"]
